@@ -109,7 +109,7 @@ def c16(tier, seed):
 def c19(tier, seed):
     return run_sat('C19', tier, seed,
         lambda th: [],
-        lambda th, s: [['serve', '--n', '40' if th else '4', '--seed', str(s), '--dir', V.WORK + '/realfs', '--bin', V.REAL_BIN]],
+        lambda th, s: [['serve', '--n', '40' if th else '4', '--seed', str(s), '--dir', V.WORK + '/realfs_C19', '--bin', V.REAL_BIN]],
         'ServerTrace', lambda r: r.get('kind') in ('files', 'rules'),
         ['ruler directories produced by the real binary with shell commands on the real file system', 'requests are legal HTTP/1.1 request lines (non-ASCII percent-encoded)',
          'the harness decides the class of each request (well-formed hash, cached, recorded) with its own base-62 / bincode decoders'], real=True, inproc=False)
@@ -119,7 +119,7 @@ def realfs_records(tier, seed):
     thorough = tier == 'thorough'
     path = V.WORK + '/C10/rec_realfs.ndjson'
     os.makedirs(V.WORK + '/C10', exist_ok=True)
-    V.harness(['realfs', '--n', '400' if thorough else '30', '--seed', str(seed), '--dir', V.WORK + '/realfs', '--bin', V.REAL_BIN, '--out', path])
+    V.harness(['realfs', '--n', '400' if thorough else '30', '--seed', str(seed), '--dir', V.WORK + '/realfs_C10r', '--bin', V.REAL_BIN, '--out', path])
     v, n = judge('C10', 'RealFsTrace', path)
     out = [(inv, rid, save_record('C10', path, rid)) for (inv, rid) in v]
     return n, out
